@@ -205,6 +205,38 @@ Section Votes.
   Qed.
 End Votes.
 
+(* ---------------------------------------------------------------- column ensemble: its members *)
+
+(* _iter(replace_strings=True), as regenerated, hands an entry out iff it is neither 'drop' nor
+   without columns (semantic: any nesting / merging of the two tests proves); without
+   replace_strings every entry is handed out *)
+Lemma gen_colens_yields_spec d e :
+  gen_colens_yields true d e = negb d && negb e /\ gen_colens_yields false d e = true.
+Proof. unfold gen_colens_yields. destruct d, e; split; reflexivity. Qed.
+
+Lemma gen_colens_yields_is_member e :
+  gen_colens_yields true (entry_is_drop e) (entry_is_empty e) = entry_is_member e.
+Proof.
+  rewrite (proj1 (gen_colens_yields_spec _ _)).
+  destruct e as [[|c cs]|[|c cs] f]; reflexivity.
+Qed.
+
+(* the model's fitted members are the entries _iter hands out *)
+Lemma fitted_members_are_the_entries_handed_out spec :
+  length (fitted_members spec) =
+  length (filter (fun e => gen_colens_yields true (entry_is_drop e) (entry_is_empty e)) spec).
+Proof.
+  induction spec as [|e spec IH]; [reflexivity|].
+  cbn [filter]. rewrite gen_colens_yields_is_member.
+  change (fitted_members (e :: spec)) with (fitted_members ([e] ++ spec)).
+  rewrite fitted_members_app, app_length, IH.
+  destruct e as [cols|[|c cs] f]; reflexivity.
+Qed.
+
+(* once fitted, the ensemble iterates over estimators_ only (F-C17-3, repaired) *)
+Lemma gen_colens_fitted_iterates_fitted_only_holds : gen_colens_fitted_iterates_fitted_only = true.
+Proof. reflexivity. Qed.
+
 (* ---------------------------------------------------------------- cBOSS weights *)
 
 (* the weight ContractableBOSS.fit gives a member (as regenerated) is positive for EVERY train
